@@ -172,7 +172,7 @@ def test_loader_types(wd, input_yaml_lines):
 def test_loader_same(wd, doc_literal, text, fmt):
     """load through `cfn-guard test`: does the loaded input equal the document written as a Guard literal?"""
     rpath = wd.write("same.guard", "rule same { this == %s }\n" % doc_literal)
-    lines = text.rstrip("\n").split("\n")
+    lines = text.strip("\n").split("\n")      # (leading empty lines of a layout do not matter here)
     if fmt in ("json", "flow"):
         body = "  input: " + lines[0] + "\n"
     else:
